@@ -92,6 +92,39 @@ def generate(repo, out_path):
         raise ValueError('generate_hash_key: add_result before process_preprocessed_file')
     order = [c for _, c in sorted([(takes[0], 0), (pps[0], 1), (rec1.start(), 2)])]
 
+    # ---- under which conditions the working directory is added to the arguments of the preprocessor-cache key ----
+    # every block that encloses `preprocessor_and_arch_args.push(cwd..)` inside generate_hash_key is classified:
+    # 1 = `if <storage config>.hash_working_directory`, 9 = anything else.  The list found is emitted
+    # (prelude_cwd_guard); that it is [1] is a proof obligation (Proofs/PpTimeline.v prelude_cwd_guard_ok).
+    pushes = [x for x in re.finditer(r'preprocessor_and_arch_args\s*\.push\(\s*cwd\b[^;]*\)\s*;', body)]
+    if len(pushes) != 1:
+        raise ValueError('generate_hash_key: expected exactly one preprocessor_and_arch_args.push(cwd..), found %d' % len(pushes))
+    call = re.search(r'preprocessor_cache_entry_hash_key\((.*?)\)\?', body, re.S)
+    if not call or '&preprocessor_and_arch_args' not in call.group(1) or call.start() < pushes[0].start():
+        raise ValueError('generate_hash_key: preprocessor_cache_entry_hash_key is not called with &preprocessor_and_arch_args after the push')
+    fn_open = body.index('{', body.index('-> Result<HashResult<T>>'))
+    guards = []
+    depth = 0
+    i = pushes[0].start() - 1
+    while i > fn_open:
+        ch = body[i]
+        if ch == '}':
+            depth += 1
+        elif ch == '{':
+            if depth == 0:
+                k = i - 1
+                while k > fn_open and body[k] not in ';{}':
+                    k -= 1
+                hdr = ' '.join(body[k + 1:i].split())
+                if re.fullmatch(r'if (storage \. preprocessor_cache_mode_config\(\) \.|storage\.preprocessor_cache_mode_config\(\)\s*\.|storage \.preprocessor_cache_mode_config\(\) \.|preprocessor_cache_mode_config\s*\.)\s*hash_working_directory',
+                                hdr.replace(' .', '.').replace('. ', '.').replace('storage.preprocessor_cache_mode_config().', 'preprocessor_cache_mode_config.')):
+                    guards.append(1)
+                else:
+                    guards.append(9)
+            else:
+                depth -= 1
+        i -= 1
+
     n_res = _int_expr(_one(r'const MAX_PREPROCESSOR_CACHE_ENTRIES: usize = ([^;]+);', pp, 'MAX_PREPROCESSOR_CACHE_ENTRIES'))
     n_inc = _int_expr(_one(r'const MAX_PREPROCESSOR_CACHE_FILE_INFO_ENTRIES: usize = ([^;]+);', pp,
                            'MAX_PREPROCESSOR_CACHE_FILE_INFO_ENTRIES'))
@@ -113,18 +146,21 @@ Definition pp_cached_env_vars : list (list N) := [%s].
 (* generate_hash_key (c.rs): source order of  0 = `let start_of_compilation = SystemTime::now()`,
    1 = `compiler.preprocess(..)`,  2 = process_preprocessed_file(.., start_of_compilation, ..) / add_result *)
 Definition prelude_order : list N := [%s].
+(* generate_hash_key: the blocks enclosing `preprocessor_and_arch_args.push(cwd)`, innermost first:
+   1 = `if <config>.hash_working_directory`, 9 = any other condition / block *)
+Definition prelude_cwd_guard : list N := [%s].
 ''' % (buf, hay_len,
        _coq_bytes(flags['found_timestamp'].encode()), flags['found_timestamp'],
        _coq_bytes(flags['found_time'].encode()), flags['found_time'],
        _coq_bytes(flags['found_date'].encode()), flags['found_date'],
        n_res, n_inc, ' '.join(env_pp), ';\n  '.join(_coq_bytes(e.encode()) for e in env_pp),
-       '; '.join(str(c) for c in order))
+       '; '.join(str(c) for c in order), '; '.join(str(g) for g in guards))
     os.makedirs(os.path.dirname(out_path), exist_ok=True)
     old = open(out_path).read() if os.path.exists(out_path) else None
     if old != txt:
         open(out_path, 'w').write(txt)
     return dict(hash_buffer_size=buf, max_haystack_len=hay_len, patterns=flags, max_results=n_res, max_includes=n_inc,
-                env_pp=env_pp, prelude_order=order)
+                env_pp=env_pp, prelude_order=order, prelude_cwd_guard=guards)
 
 
 if __name__ == '__main__':
